@@ -494,6 +494,9 @@ def correspondence(ctx):
         except Exception as e:  # noqa: BLE001
             impl = err_name(e)
         ctx.corr('tz_trans', [mo], impl, nt)
+        # the same call with the second half of get_transitions (everything after `transitions.sort()`) run from the body
+        # regenerated by tools/py2lean.py (Gen/BodiesTz.lean)
+        ctx.corr('body_tz_trans', [mo], impl, nt)
         ctx.count('family:' + d['family'])
         ins = instants(ctx.rng, es)
         if not ins:
@@ -531,6 +534,7 @@ def correspondence(ctx):
         except Exception as e:  # noqa: BLE001
             impl = err_name(e)
         ctx.corr('tz_trans', [model_obs(d)], impl, True)
+        ctx.corr('body_tz_trans', [model_obs(d)], impl, True)
     from icalendar.timezone import tzp
     for s in ['', '/', '//', '/a', 'a/', '/a/b/', 'a//b', '///a///', 'Europe/Berlin', '/Europe/Berlin', ' /a/ ']:
         ctx.corr('tz_strip', [enc(s)], enc(tzp.clean_timezone_id(s)), '/' in s)
